@@ -102,11 +102,35 @@ pub fn before_key_wait<T>(mutex: &T) {
     }
 }
 
-/// Optional scheduling point in the middle of a critical section (only reported while the global lock is held).
+/// Optional scheduling point in the middle of a critical section (only reported while the global lock is held,
+/// and not from inside the `slow_assertions` checker, see [Quiet]).
 #[inline]
 pub fn in_cs(id: u32) {
-    if glock_depth() != 0 {
+    if glock_depth() != 0 && QUIET.with(|q| q.get()) == 0 {
         at(Site::InCs(id));
+    }
+}
+
+thread_local! {
+    static QUIET: Cell<usize> = const { Cell::new(0) };
+}
+
+/// RAII token: while it is alive the current thread reports no [Site::InCs]. Held by the invariant checker of
+/// `slow_assertions`, which only touches entries no other thread can reach.
+pub struct Quiet(());
+
+impl Quiet {
+    #[inline]
+    pub fn enter() -> Self {
+        QUIET.with(|q| q.set(q.get() + 1));
+        Self(())
+    }
+}
+
+impl Drop for Quiet {
+    #[inline]
+    fn drop(&mut self) {
+        QUIET.with(|q| q.set(q.get().saturating_sub(1)));
     }
 }
 
